@@ -17,11 +17,11 @@ Definition one_pair (idx : nat) (fa : str * str) : list (pinref * netbit) :=
 Lemma attach_pairs_flat idx fas : attach_pairs idx fas = flat_map (one_pair idx) fas.
 Proof. reflexivity. Qed.
 
-Lemma R_conn_one cur ref idx ms fa ms' nm st :
-  conn_one cur ref idx (Ok ms) fa = Ok ms' ->
-  R nm (get_model nm ms) st ->
-  (nm = cur -> n_conns st = [] /\ n_bb st = false) ->
-  R nm (get_model nm ms') (if str_eqb nm cur then add_att st (one_pair idx fa) else st).
+Lemma R_conn_one al cur ref idx ms fa ms' nm st :
+  conn_one al cur ref idx (Ok ms) fa = Ok ms' ->
+  RX nm cur al (get_model nm ms) st ->
+  (nm = cur -> n_bb st = false) ->
+  RX nm cur al (get_model nm ms') (if str_eqb nm cur then add_att st (one_pair idx fa) else st).
 Proof.
   intros H HR Hc. unfold conn_one in H. cbn [bind] in H.
   destruct (pni (snd fa)) as [[c k]|] eqn:E1; [|discriminate]. cbn [bind] in H.
@@ -29,29 +29,29 @@ Proof.
   apply pni_nb in E1, E2. unfold one_pair. rewrite E1, E2.
   destruct (str_eqb c k_unconn).
   - inversion H; subst ms'. rewrite add_att_nil.
-    assert (R1 : R nm (get_model nm (upd_model cur (upd_inst idx (fun x => set_iunconn x (i_unconn x ++ [unconn_entry p i]))) ms)) st)
-      by (eapply R_geq; [apply geq_upd_inst|exact HR]).
+    assert (R1 : RX nm cur al (get_model nm (upd_model cur (upd_inst idx (fun x => set_iunconn x (i_unconn x ++ [unconn_entry p i]))) ms)) st)
+      by (eapply RX_geq; [apply geq_upd_inst|exact HR]).
     destruct (str_eqb nm cur); exact R1.
   - destruct (find_port _ _); [|discriminate].
-    assert (R1 : R nm (get_model nm (grow_port ref p (S i) ms)) st) by (eapply R_geq; [apply geq_grow_port|exact HR]).
+    assert (R1 : RX nm cur al (get_model nm (grow_port ref p (S i) ms)) st) by (eapply RX_geq; [apply geq_grow_port|exact HR]).
     destruct (str_eqb nm cur) eqn:E.
-    + apply str_eqb_spec in E. subst nm. destruct (Hc eq_refl) as [C1 C2].
-      destruct (get_model_upd_res_same _ _ _ _ H) as [m' [H1 [H2 H3]]]; [intros; eapply connect_name; eauto|].
-      rewrite H2. exact (R_connect cur _ _ _ _ _ st H1 C1 C2 R1).
+    + apply str_eqb_spec in E. subst nm. pose proof (Hc eq_refl) as C2.
+      destruct (get_model_upd_res_same _ _ _ _ H) as [m' [H1 [H2 H3]]]; [intros; eapply connect_to_name; eauto|].
+      rewrite H2. exact (RX_connect cur _ _ _ _ _ _ st H1 C2 R1).
     + apply str_eqb_false in E.
-      rewrite (get_model_upd_res_other _ _ _ _ nm H); [exact R1|intros; eapply connect_name; eauto|exact E].
+      rewrite (get_model_upd_res_other _ _ _ _ nm H); [exact R1|intros; eapply connect_to_name; eauto|exact E].
 Qed.
 
-Lemma R_connect_pins cur ref idx info : forall ms ms' nm st,
-  connect_instance_pins cur ref idx info ms = Ok ms' ->
-  R nm (get_model nm ms) st ->
-  (nm = cur -> n_conns st = [] /\ n_bb st = false) ->
-  R nm (get_model nm ms') (if str_eqb nm cur then add_att st (attach_pairs idx info) else st).
+Lemma R_connect_pins al cur ref idx info : forall ms ms' nm st,
+  connect_instance_pins al cur ref idx info ms = Ok ms' ->
+  RX nm cur al (get_model nm ms) st ->
+  (nm = cur -> n_bb st = false) ->
+  RX nm cur al (get_model nm ms') (if str_eqb nm cur then add_att st (attach_pairs idx info) else st).
 Proof.
   unfold connect_instance_pins. induction info as [|fa info IH]; intros ms ms' nm st H HR Hc; cbn [fold_left] in H.
   - inversion H; subst. rewrite attach_pairs_flat. cbn [flat_map]. rewrite add_att_nil. destruct (str_eqb nm cur); exact HR.
-  - destruct (conn_one cur ref idx (Ok ms) fa) as [ms1|e] eqn:E1; [|rewrite fold_res_err in H; [discriminate|reflexivity]].
-    pose proof (R_conn_one _ _ _ _ _ _ _ _ E1 HR Hc) as R1.
+  - destruct (conn_one al cur ref idx (Ok ms) fa) as [ms1|e] eqn:E1; [|rewrite fold_res_err in H; [discriminate|reflexivity]].
+    pose proof (R_conn_one _ _ _ _ _ _ _ _ _ E1 HR Hc) as R1.
     specialize (IH ms1 ms' nm _ H R1). rewrite attach_pairs_flat. cbn [flat_map]. rewrite <- attach_pairs_flat.
     destruct (str_eqb nm cur) eqn:E.
     + rewrite <- add_att_app. apply IH. exact Hc.
@@ -60,27 +60,28 @@ Qed.
 
 Lemma R_finish_inst s ref idx nm0 info ms s' nm st :
   finish_inst s ref idx nm0 info ms = Ok s' ->
-  R nm (get_model nm ms) st ->
-  (nm = s_cur s -> n_conns st = [] /\ n_bb st = false) ->
-  R nm (get_model nm (st_models s')) (if str_eqb nm (s_cur s) then add_att st (attach_pairs idx info) else st) /\
-  s_cur s' = s_cur s /\ s_isbb s' = s_isbb s.
+  RX nm (s_cur s) (s_merged s) (get_model nm ms) st ->
+  (nm = s_cur s -> n_bb st = false) ->
+  RX nm (s_cur s) (s_merged s) (get_model nm (st_models s')) (if str_eqb nm (s_cur s) then add_att st (attach_pairs idx info) else st) /\
+  s_cur s' = s_cur s /\ s_isbb s' = s_isbb s /\ s_merged s' = s_merged s.
 Proof.
   intros H HR Hc. unfold finish_inst in H.
   destruct (match nm0 with Some x => _ | None => _ end) as [name tbl].
   apply bind_ok in H as [ms1 [H1 H]]. apply bind_ok in H as [ms2 [H2 H]]. inversion H; subst s'. clear H.
-  cbn [st_models s_nl b_models set_models s_cur s_isbb]. split; [|split; reflexivity].
-  apply (R_connect_pins _ _ _ _ _ _ _ _ H2); [|exact Hc].
-  eapply R_geq; [eapply geq_set_inst_name; exact H1|exact HR].
+  cbn [st_models s_nl b_models set_models s_cur s_isbb s_merged]. split; [|split; [|split]; reflexivity].
+  apply (R_connect_pins _ _ _ _ _ _ _ _ _ H2); [|exact Hc].
+  eapply RX_geq; [eapply geq_set_inst_name; exact H1|exact HR].
 Qed.
 
 (* the new child *)
 Definition st_child (st : nst) : nst :=
   mkNst (S (n_idx st)) (n_ins st) (n_inn st) (n_outn st) (n_att st) (n_conns st) (n_bb st) (n_lib st) (n_def st).
 
-Lemma R_add_child nm m x st :
-  R nm m st -> R nm (set_insts m (m_insts m ++ [x])) (st_child st).
+Lemma R_add_child nm cur al m x st :
+  RX nm cur al m st -> RX nm cur al (set_insts m (m_insts m ++ [x])) (st_child st).
 Proof.
-  intros [R1 R2 R3 R4 R5 R6 R7 R8 R9]. constructor; cbn [st_child n_idx n_ins n_inn n_outn n_att n_conns n_bb n_lib n_def set_insts m_insts m_cables m_lib m_defined]; auto.
+  intros [[R1 R2 R3 R4 R5 R6 R7 R8] HN]. split; [|exact HN].
+  constructor; cbn [st_child n_idx n_ins n_inn n_outn n_att n_conns n_bb n_lib n_def set_insts m_insts m_cables m_lib m_defined]; auto.
   rewrite app_length. cbn. lia.
 Qed.
 
@@ -88,53 +89,53 @@ Qed.
 Lemma R_inst_tail s ref k nm0 info ms s' nm st :
   has (s_cur s) ms ->
   finish_inst s ref (length (m_insts (get_model (s_cur s) ms))) nm0 info (add_child (s_cur s) ref k ms) = Ok s' ->
-  R nm (get_model nm ms) st ->
-  (nm = s_cur s -> n_conns st = [] /\ n_bb st = false) ->
-  R nm (get_model nm (st_models s'))
+  RX nm (s_cur s) (s_merged s) (get_model nm ms) st ->
+  (nm = s_cur s -> n_bb st = false) ->
+  RX nm (s_cur s) (s_merged s) (get_model nm (st_models s'))
     (if str_eqb nm (s_cur s) then add_inst st (attach_pairs (n_idx st) info) else st) /\
-  s_cur s' = s_cur s /\ s_isbb s' = s_isbb s.
+  s_cur s' = s_cur s /\ s_isbb s' = s_isbb s /\ s_merged s' = s_merged s.
 Proof.
   intros Hh H HR Hc. destruct (has_find _ _ Hh) as [m Hm].
-  assert (R0 : R nm (get_model nm (add_child (s_cur s) ref k ms)) (if str_eqb nm (s_cur s) then st_child st else st)).
+  assert (R0 : RX nm (s_cur s) (s_merged s) (get_model nm (add_child (s_cur s) ref k ms)) (if str_eqb nm (s_cur s) then st_child st else st)).
   { destruct (str_eqb nm (s_cur s)) eqn:E.
     - apply str_eqb_spec in E. subst nm. rewrite (get_model_add_child_same _ _ _ _ _ Hm).
       apply R_add_child. rewrite <- (get_model_find _ _ _ Hm). exact HR.
     - apply str_eqb_false in E. rewrite get_model_add_child_other; [exact HR|exact E]. }
-  destruct (R_finish_inst _ _ _ _ _ _ _ nm _ H R0) as [R1 [E1 E2]].
-  { intro Hn. destruct (Hc Hn) as [C1 C2]. rewrite Hn, str_eqb_refl. split; assumption. }
-  split; [|split; assumption].
+  destruct (R_finish_inst _ _ _ _ _ _ _ nm _ H R0) as [R1 [E1 [E2 E3]]].
+  { intro Hn. rewrite Hn, str_eqb_refl. exact (Hc Hn). }
+  split; [|split; [|split]; assumption].
   destruct (str_eqb nm (s_cur s)) eqn:E; [|exact R1].
-  apply str_eqb_spec in E. subst nm. rewrite (r_idx _ _ _ HR) in R1. exact R1.
+  apply str_eqb_spec in E. subst nm. rewrite (r_idx _ _ _ (RX_R _ _ _ _ _ HR)) in R1. exact R1.
 Qed.
 
 (* ====================================================================== .subckt / .gate *)
-Lemma check_hierarchy_isbb s ref s' : check_hierarchy s ref = Ok s' -> s_isbb s' = s_isbb s.
+Lemma check_hierarchy_isbb s ref s' : check_hierarchy s ref = Ok s' -> s_isbb s' = s_isbb s /\ s_merged s' = s_merged s.
 Proof.
   unfold check_hierarchy. destruct (b_top (s_nl s)) as [[tn tr]|]; [|discriminate].
-  destruct (str_eqb ref tr); [|intro H; inversion H; reflexivity].
+  destruct (str_eqb ref tr); [|intro H; inversion H; split; reflexivity].
   destruct (str_eqb ref (s_cur s)); [discriminate|].
-  destruct (parents_of _ _) as [|p ps]; cbn; [intro H; inversion H; reflexivity|].
-  destruct (forallb _ _); cbn; intro H; inversion H; reflexivity.
+  destruct (parents_of _ _) as [|p ps]; cbn; [intro H; inversion H; split; reflexivity|].
+  destruct (forallb _ _); cbn; intro H; inversion H; split; reflexivity.
 Qed.
 
 Lemma R_sub s gate ref pairs s' nm st :
   has (s_cur s) (st_models s) ->
   exec s (SSub gate ref pairs) = Ok s' ->
-  R nm (get_model nm (st_models s)) st ->
-  (nm = s_cur s -> n_conns st = [] /\ n_bb st = false) ->
-  R nm (get_model nm (st_models s')) (step_g nm (s_cur s) (SSub gate ref pairs) st) /\
-  s_cur s' = s_cur s /\ s_isbb s' = s_isbb s.
+  RX nm (s_cur s) (s_merged s) (get_model nm (st_models s)) st ->
+  (nm = s_cur s -> n_bb st = false) ->
+  RX nm (s_cur s) (s_merged s) (get_model nm (st_models s')) (step_g nm (s_cur s) (SSub gate ref pairs) st) /\
+  s_cur s' = s_cur s /\ s_isbb s' = s_isbb s /\ s_merged s' = s_merged s.
 Proof.
   intros Hh H HR Hc. cbn [exec] in H. apply bind_ok in H as [s1 [H1 H]].
-  destruct (check_hierarchy_models _ _ _ H1) as [E1 E2]. pose proof (check_hierarchy_isbb _ _ _ H1) as E3.
+  destruct (check_hierarchy_models _ _ _ H1) as [E1 E2]. pose proof (check_hierarchy_isbb _ _ _ H1) as [E3 E4].
   apply bind_ok in H as [[ms1 info] [H2 H]].
   destruct (veq_do_pairs _ _ _ _ _ _ nm H2) as [V [N I]]. rewrite pairs_info in I. subst info.
   assert (Hh1 : has (s_cur s1) ms1).
   { unfold has. rewrite N, E2, E1. apply has_ensure_other. exact Hh. }
-  assert (R1 : R nm (get_model nm ms1) st).
-  { eapply R_veq; [exact V|]. rewrite get_model_ensure, E1. exact HR. }
-  destruct (R_inst_tail _ _ _ _ _ _ _ nm st Hh1 H R1) as [R2 [F1 F2]]; [rewrite E2; exact Hc|].
-  rewrite E2 in *. split; [exact R2|]. split; congruence.
+  assert (R1 : RX nm (s_cur s1) (s_merged s1) (get_model nm ms1) st).
+  { rewrite E2, E4. eapply RX_veq; [exact V|]. rewrite get_model_ensure, E1. exact HR. }
+  destruct (R_inst_tail _ _ _ _ _ _ _ nm st Hh1 H R1) as [R2 [F1 [F2 F3]]]; [rewrite E2; exact Hc|].
+  rewrite E2, E4 in *. split; [exact R2|]. split; [|split]; congruence.
 Qed.
 
 (* ====================================================================== .names *)
@@ -218,10 +219,10 @@ Qed.
 Lemma R_names s nets s' nm st :
   has (s_cur s) (st_models s) -> Q (st_models s) -> reserved (s_cur s) = false ->
   exec s (SNames nets) = Ok s' ->
-  R nm (get_model nm (st_models s)) st ->
-  (nm = s_cur s -> n_conns st = [] /\ n_bb st = false) ->
-  R nm (get_model nm (st_models s')) (step_g nm (s_cur s) (SNames nets) st) /\
-  s_cur s' = s_cur s /\ s_isbb s' = s_isbb s.
+  RX nm (s_cur s) (s_merged s) (get_model nm (st_models s)) st ->
+  (nm = s_cur s -> n_bb st = false) ->
+  RX nm (s_cur s) (s_merged s) (get_model nm (st_models s')) (step_g nm (s_cur s) (SNames nets) st) /\
+  s_cur s' = s_cur s /\ s_isbb s' = s_isbb s /\ s_merged s' = s_merged s.
 Proof.
   intros Hh HQ Hcr H HR Hc. cbn [exec] in H. destruct (rev nets) as [|lastnet _]; [discriminate|].
   set (k := length nets - 1) in *. set (ref := k_logic_gate ++ dec k) in *.
@@ -232,11 +233,11 @@ Proof.
   assert (N1 : map m_name ms1 = map m_name ms0).
   { apply (mnames_fold_ensure_port ref (fun q => q)). }
   assert (Hh1 : has (s_cur s) ms1) by (unfold has; rewrite N1; apply has_ensure_other; exact Hh).
-  assert (R1 : R nm (get_model nm ms1) st).
+  assert (R1 : RX nm (s_cur s) (s_merged s) (get_model nm ms1) st).
   { destruct (list_eq_dec N.eq_dec nm ref) as [->|Hn].
-    - eapply R_vcore; [apply reserved_lg|apply (vcore_fold_ensure_port ref (fun q => q))|].
+    - eapply RX_vcore; [apply reserved_lg|apply (vcore_fold_ensure_port ref (fun q => q))|].
       unfold ms0. rewrite get_model_ensure. exact HR.
-    - eapply R_geq; [apply (geq_fold_ensure_port_other ref (fun q => q)); exact Hn|].
+    - eapply RX_geq; [apply (geq_fold_ensure_port_other ref (fun q => q)); exact Hn|].
       unfold ms0. rewrite get_model_ensure. exact HR. }
   assert (Hinfo : dict_of (zip (map p_name (m_ports (get_model ref (add_child (s_cur s) ref KNames ms1)))) nets)
                   = zip (names_port_names k) nets).
@@ -244,33 +245,33 @@ Proof.
     unfold ms1, ms0, ref. rewrite (names_after_fold k _ HQ).
     apply dict_of_nodup. apply zip_fst_nodup. apply names_port_names_nodup. }
   rewrite Hinfo in H.
-  destruct (R_inst_tail _ _ _ _ _ _ _ nm st Hh1 H R1 Hc) as [R2 [F1 F2]].
-  split; [exact R2|]. split; assumption.
+  destruct (R_inst_tail _ _ _ _ _ _ _ nm st Hh1 H R1 Hc) as [R2 [F1 [F2 F3]]].
+  split; [exact R2|]. split; [|split]; assumption.
 Qed.
 
 (* ====================================================================== .latch *)
 Lemma R_latch s toks s' nm st :
   has (s_cur s) (st_models s) -> reserved (s_cur s) = false ->
   exec s (SLatch toks) = Ok s' ->
-  R nm (get_model nm (st_models s)) st ->
-  (nm = s_cur s -> n_conns st = [] /\ n_bb st = false) ->
-  R nm (get_model nm (st_models s')) (step_g nm (s_cur s) (SLatch toks) st) /\
-  s_cur s' = s_cur s /\ s_isbb s' = s_isbb s.
+  RX nm (s_cur s) (s_merged s) (get_model nm (st_models s)) st ->
+  (nm = s_cur s -> n_bb st = false) ->
+  RX nm (s_cur s) (s_merged s) (get_model nm (st_models s')) (step_g nm (s_cur s) (SLatch toks) st) /\
+  s_cur s' = s_cur s /\ s_isbb s' = s_isbb s /\ s_merged s' = s_merged s.
 Proof.
   intros Hh Hcr H HR Hc. cbn [exec] in H.
   set (info := zip latch_order toks) in *. set (ref := k_latch_def) in *.
   set (ms0 := ensure_model ref (st_models s)) in *.
   set (ms1 := match m_ports (get_model ref ms0) with [] => _ | _ => ms0 end) in H.
-  assert (A : map m_name ms1 = map m_name ms0 /\ R nm (get_model nm ms1) st).
-  { assert (R0 : R nm (get_model nm ms0) st) by (unfold ms0; rewrite get_model_ensure; exact HR).
+  assert (A : map m_name ms1 = map m_name ms0 /\ RX nm (s_cur s) (s_merged s) (get_model nm ms1) st).
+  { assert (R0 : RX nm (s_cur s) (s_merged s) (get_model nm ms0) st) by (unfold ms0; rewrite get_model_ensure; exact HR).
     unfold ms1. destruct (m_ports (get_model ref ms0)); [|split; [reflexivity|exact R0]]. split.
     - apply (mnames_fold_ensure_port ref (fun kv : str * str => latch_port (fst kv))).
     - destruct (list_eq_dec N.eq_dec nm ref) as [->|Hn].
-      + eapply R_vcore; [apply reserved_latch|apply (vcore_fold_ensure_port ref (fun kv : str * str => latch_port (fst kv)))|exact R0].
-      + eapply R_geq; [apply (geq_fold_ensure_port_other ref (fun kv : str * str => latch_port (fst kv))); exact Hn|exact R0]. }
+      + eapply RX_vcore; [apply reserved_latch|apply (vcore_fold_ensure_port ref (fun kv : str * str => latch_port (fst kv)))|exact R0].
+      + eapply RX_geq; [apply (geq_fold_ensure_port_other ref (fun kv : str * str => latch_port (fst kv))); exact Hn|exact R0]. }
   destruct A as [N1 R1].
   assert (Hh1 : has (s_cur s) ms1) by (unfold has; rewrite N1; apply has_ensure_other; exact Hh).
   destruct (sassoc k_output info) as [out|]; [|discriminate].
-  destruct (R_inst_tail _ _ _ _ _ _ _ nm st Hh1 H R1 Hc) as [R2 [F1 F2]].
-  split; [exact R2|]. split; assumption.
+  destruct (R_inst_tail _ _ _ _ _ _ _ nm st Hh1 H R1 Hc) as [R2 [F1 [F2 F3]]].
+  split; [exact R2|]. split; [|split]; assumption.
 Qed.
